@@ -243,6 +243,11 @@ def run(ck, tier):
     from ..share import import_findings as _imp2
     ck.rule('R16', 'the TCP receiver accepts every legal MBAP length 2..254: a well-formed maximum-size reply is returned to the caller (shared with C03 R2)')
     _imp2(ck, 'C03', 'R16', ('R2',), 'a well-formed reply of a conformant server is dropped and the caller gets an error object', detail_prefixes=('mbap-length',))
+    from .c13 import r17_unknown_length_read_covers_an_adu
+    ck.guard(r17_unknown_length_read_covers_an_adu, ck, cx, 'R18')
+    from ..share import import_findings as _imp3
+    ck.rule('R19', 'the RTU frame length oracle sizes every reply correctly (byte counts up to 250 are unsigned) (shared with C03 R3)')
+    _imp3(ck, 'C03', 'R19', ('R3',), 'a well-formed reply of a conformant server fails the frame check and the caller gets an error object', detail_prefixes=('rtuFrameSize-shape', 'size-from-buffered-length', 'custom-size-override', 'fifo-size', 'mei-size-shape', 'base-size-shape'))
     return cx.idx
 
 
